@@ -1621,6 +1621,20 @@ impl CrashX {
                 }
                 Ok(Ok(n)) => n,
             };
+            if prop == "C20" {
+                // C20 asks only that the directory of a dead holder opens again (what it holds is
+                // C03's question): the new handle must be able to commit
+                let k0 = uni[0];
+                let r = n.begin_session(nomt::SessionParams::default()).finish(vec![(k0, nomt::KeyReadWrite::Write(Some(vec![9])))]).and_then(|f| f.commit(&n));
+                match r {
+                    Ok(()) => out.goals.push("new-holder-commits-after-process-death"),
+                    Err(e) if cfg0.buckets <= 8 && format!("{e:#}").contains("exhaustion") => {}
+                    Err(e) => {
+                        found.entry("commit-after-death".into()).or_insert(format!("{what}: the next holder's commit failed: {e:#}"));
+                    }
+                }
+                continue;
+            }
             let sides = Sides {
                 old: &old,
                 new: Some(&new),
